@@ -161,6 +161,7 @@ type quotaStats struct {
 	infoKinds                  map[string]int
 	infoSample                 string
 	lossSeen, makeupSeen       int
+	lastRealLost               string
 }
 
 func (st *quotaStats) note(kind, msg string) {
@@ -252,9 +253,7 @@ func (c *quotaCase) stepwise(st *quotaStats) (bad string, matched bool) {
 		return bad, true
 	}
 	if fmt.Sprint(realLost) != fmt.Sprint(c.Lost) {
-		if os.Getenv("VH_DEBUG_LOSS") != "" {
-			fmt.Println("LOSS", realLost, c.Lost, c.Bnd, c.Fc, c.E)
-		}
+		st.lastRealLost = fmt.Sprint(realLost, " boundaries ", c.Bnd, " floor-cum ", c.Fc, " e ", c.E, " T ", c.T)
 		return "", false
 	}
 	for _, l := range realLost {
@@ -472,6 +471,7 @@ func replayQuota(args []string) int {
 	seed0 := vhu.EnvSeed() * 1000003
 	byMode := map[string]int{}
 	inputsSeen, inputsMatched := map[string]bool{}, map[string]bool{}
+	realOf := map[string]string{}
 	idx := int64(0)
 	err := vhu.ReadNDJSON(*cases, func(line []byte) error {
 		var c quotaCase
@@ -482,7 +482,7 @@ func replayQuota(args []string) int {
 		rep.Cases++
 		raw := json.RawMessage(append([]byte(nil), line...))
 		// the input of the behaviour (everything the code sees, without the loss vector / coins)
-		inKey := fmt.Sprint(c.N, c.DropOff, c.Sig, c.St, c.Bs, c.Hf0, c.Ehlc0, c.Species, c.Coins)
+		inKey := fmt.Sprint(c.N, c.DropOff, c.Sig, c.St, c.Bs, c.Hf0, c.Ehlc0, c.Species, c.wantedCoins())
 		inputsSeen[inKey] = true
 		fail := func(stage, what string) {
 			rep.Fail(map[string]interface{}{"case": raw, "stage": stage, "what": "[" + stage + "] " + what,
@@ -496,6 +496,7 @@ func replayQuota(args []string) int {
 		}
 		if !matched {
 			st.skippedLoss++
+			realOf[inKey] = st.lastRealLost
 			return nil
 		}
 		st.matched++
@@ -533,6 +534,12 @@ func replayQuota(args []string) int {
 	for k := range inputsSeen {
 		if !inputsMatched[k] {
 			unmatched++
+			if os.Getenv("VH_DEBUG_LOSS") != "" {
+				fmt.Println("UNMATCHED", k, "real loss", realOf[k])
+			}
+			if _, has := rep.Extra["unmatched_sample"]; !has {
+				rep.Extra["unmatched_sample"] = k + " real loss " + realOf[k]
+			}
 		}
 	}
 	rep.Extra["behaviours_compared"] = st.matched
